@@ -21,19 +21,31 @@ PJ = z3.Function("path_join", PathS, S, PathS)  # path / name
 PN = z3.Function("path_name", PathS, S)
 PP = z3.Function("path_parent", PathS, PathS)
 NONE_TREE = z3.Const("tree_None", Tree)
+NONEMPTY = z3.Function("tree_has_some_key", Tree, B)  # definition: exists k. HK(t, k); WITKEY is its witness
+WITKEY = z3.Function("tree_some_key", Tree, S)
 
 T2_PATH = "T2 pathlib: (p / k).name == k and (p / k).parent == p for single-segment names k (so `/` is injective in both arguments)"
 T5_MODEL = "T5 pydantic: cls(path=, prev=, curr=) allocates a new object holding exactly these values and fresh empty dicts for the defaulted dict fields"
 
 
-def axioms():
+def axioms(light=False):
+    """light: only the facts about kinds (for contracts that neither look into directories nor compare trees).  Every model of the light
+    axioms extends to a model of all of them (take HK(t, k) := NONEMPTY(t) and k == WITKEY(t), children any non-None tree), so a
+    refutation found under them is a refutation under all."""
     t, u = z3.Consts("ax_t ax_u", Tree)
     k = z3.String("ax_k")
     p = z3.Const("ax_p", PathS)
-    return [
+    kinds = [
         TK(NONE_TREE) == 0,
         z3.ForAll([t], z3.And(TK(t) >= 0, TK(t) <= 2)),
+        z3.ForAll([t], z3.Implies(NONEMPTY(t), TK(t) == 2)),
+    ]
+    if light:
+        return kinds
+    return kinds + [
         z3.ForAll([t, k], z3.Implies(HK(t, k), z3.And(TK(t) == 2, TK(CH(t, k)) >= 1))),  # wf: only dicts have entries; entries are never None
+        z3.ForAll([t, k], z3.Implies(HK(t, k), NONEMPTY(t))),
+        z3.ForAll([t], z3.Implies(NONEMPTY(t), HK(t, WITKEY(t)))),
         z3.ForAll([t, u], TEQ(t, u) == z3.And(TK(t) == TK(u), z3.Implies(TK(t) == 1, SV(t) == SV(u)), z3.Implies(TK(t) == 2, z3.ForAll([k], z3.And(HK(t, k) == HK(u, k), z3.Implies(HK(t, k), TEQ(CH(t, k), CH(u, k)))))))),
         z3.ForAll([p, k], z3.And(PN(PJ(p, k)) == k, PP(PJ(p, k)) == p)),
     ]
@@ -92,8 +104,7 @@ class TreeVal(SVal):
         return TK(self.t) == 0
 
     def py_truth(self, cx):
-        k = z3.String(fresh_name("tk"))
-        return z3.If(TK(self.t) == 0, False, z3.If(TK(self.t) == 1, z3.Length(SV(self.t)) > 0, z3.Exists([k], HK(self.t, k))))
+        return z3.If(TK(self.t) == 0, False, z3.If(TK(self.t) == 1, z3.Length(SV(self.t)) > 0, NONEMPTY(self.t)))
 
     def meth_find(self, cx, sub):
         return SStr(SV(self.t)).py_call_method(cx, "find", [sub], {})
@@ -366,7 +377,7 @@ class Status(FnSpec):
         self.bindings["DiffNode"] = StatusNS()
 
     def setup(self, cx):
-        for ax in axioms():
+        for ax in axioms(light=True):
             cx.assume(ax)
         return A(self=SRef.fresh("DiffNode", "node"))
 
@@ -391,7 +402,7 @@ class EntityType(FnSpec):
         self.bindings["DiffNode"] = StatusNS()
 
     def setup(self, cx):
-        for ax in axioms():
+        for ax in axioms(light=True):
             cx.assume(ax)
         return A(self=SRef.fresh("DiffNode", "node"), entity=TreeVal(z3.Const("entity", Tree)))
 
@@ -406,6 +417,120 @@ class EntityType(FnSpec):
             ("symlink-iff-symlink-text", z3.BoolVal(name == "symlink") == is_link, "symlink exactly for 'symlink:<target>' leaves"),
             ("else-file", z3.BoolVal(name == "file") == z3.And(TK(e) == 1, z3.Not(is_link), SV(e) != z3.StringVal("")), "any other leaf is a file"),
         ]
+
+
+ROOT_PATH = z3.Const("path_of_the_compared_directory", PathS)  # Path("")
+
+
+class DirDiffCls(SVal):
+    """the class object in DirDiff.compare: __new__ hands out a new, empty instance"""
+
+    def meth___new__(self, cx, c):
+        from pyvc.containers import SObj
+
+        return SObj("DirDiff", name="ret")
+
+
+class StatusCallee(Status):
+    """DiffNode.status as seen by DirDiff.status: its contract, by cases"""
+
+    def setup(self, cx):
+        raise Unsupported("callee-only")
+
+
+def status_by_contract(cx, node):
+    p, c = fld(cx, node.t, "prev"), fld(cx, node.t, "curr")
+    if cx.decide(TK(p) == 0):
+        return StatusVal("added")
+    if cx.decide(TK(c) == 0):
+        return StatusVal("removed")
+    return StatusVal("modified")
+
+
+class DirDiffCompare(FnSpec):
+    file = "util/diff.py"
+    qual = "DirDiff.compare"
+    props = ("C18",)
+
+    def init(self):
+        self.bindings["Path"] = lambda cx, s="": PathV(ROOT_PATH) if s == "" else (_ for _ in ()).throw(Unsupported("Path of a non-empty text"))
+
+    def setup(self, cx):
+        for ax in axioms():
+            cx.assume(ax)
+        a = A(cls=DirDiffCls(), prev=TreeVal(z3.Const("prev", Tree)), curr=TreeVal(z3.Const("curr", Tree)))
+        alloc(cx)
+        return a
+
+    def ensures(self, cx, a, res):
+        from pyvc.containers import SObj
+
+        prev, curr = tree_t(a.prev), tree_t(a.curr)
+        if not isinstance(res, SObj) or "_diff_root" not in res.fields:
+            return [("result-shape", z3.BoolVal(False), "returns a DirDiff holding a root")]
+        root = res.fields["_diff_root"]
+        none_c = root.isnone if isinstance(root, SMaybe) else z3.BoolVal(root is None)
+        out = [("empty-iff-equal", none_c == TEQ(prev, curr), "the diff is empty exactly when the two snapshots are equal")]
+        r = root.val.t if isinstance(root, SMaybe) else (root.t if isinstance(root, SRef) else None)
+        if r is None:
+            return out
+        al = alloc(cx)
+        ca = A(prev=a.prev, curr=a.curr, path=PathV(ROOT_PATH))
+        for nm, g, txt in Compare.post(Compare, cx, ca, r, al, "dd"):
+            out.append(("root-" + nm, z3.Implies(z3.Not(none_c), g), "the root node is DiffNode.compare(prev, curr) at the empty path — " + txt))
+        return out
+
+
+class DirDiffStatus(FnSpec):
+    file = "util/diff.py"
+    qual = "DirDiff.status"
+    props = ("C18",)
+
+    def init(self):
+        self.bindings["DiffNode"] = StatusNS()
+
+    def setup(self, cx):
+        from pyvc.containers import SObj
+
+        node = None if cx.choose(2) == 0 else SRef.fresh("DiffNode", "node")
+        return A(self=SObj("DirDiff", name="self"), node=node)
+
+    def ensures(self, cx, a, res):
+        name = res.name if isinstance(res, StatusVal) else None
+        if a.node is None:
+            return [("unchanged-for-no-node", z3.BoolVal(name == "unchanged"), "a path without a diff node is unchanged")]
+        p, c = fld(cx, a.node.t, "prev"), fld(cx, a.node.t, "curr")
+        exp_added, exp_removed = TK(p) == 0, z3.And(TK(p) != 0, TK(c) == 0)
+        return [
+            ("never-unchanged-for-a-node", z3.BoolVal(name != "unchanged" and name is not None), "a path with a diff node is never reported unchanged"),
+            ("added-iff-absent-before", z3.BoolVal(name == "added") == exp_added, "status added exactly when there was no old entry"),
+            ("removed-iff-absent-after", z3.BoolVal(name == "removed") == exp_removed, "status removed exactly when there is no new entry"),
+        ]
+
+
+class TypeProps(FnSpec):
+    """prev_type / curr_type hand _type the right entity"""
+
+    file = "util/diff.py"
+    props = ("C18",)
+
+    def __init__(self, which):
+        self.which = which
+        self.qual = f"DiffNode.{which}_type"
+        FnSpec.__init__(self)
+
+    def setup(self, cx):
+        return A(self=SRef.fresh("DiffNode", "node"))
+
+    def ensures(self, cx, a, res):
+        want = fld(cx, a.self.t, self.which)
+        got = res.t if isinstance(res, TypeOf) else None
+        return [(f"type-of-the-{self.which}-entry", z3.BoolVal(False) if got is None else got == want, f"{self.which}_type is the type of the {self.which} entry (not of the other side)")]
+
+
+class TypeOf(SVal):
+    def __init__(self, t):
+        self.t = t
 
 
 class StatusVal(SVal):
@@ -423,7 +548,9 @@ class StatusNS(SVal):
 def build(reg):
     reg.set_class_home("DiffNode", "util/diff.py")
     reg.ctors["DiffNode"] = node_ctor
-    specs = [Compare(), Status(), EntityType()]
+    specs = [Compare(), Status(), EntityType(), DirDiffCompare(), DirDiffStatus(), TypeProps("prev"), TypeProps("curr")]
+    reg.method_bindings[("DiffNode", "status")] = lambda cx, node: status_by_contract(cx, node)
+    reg.method_bindings[("DiffNode", "_type")] = lambda cx, node, e: TypeOf(tree_t(e))
     for s in specs:
         reg.add(s)
     return {
